@@ -108,6 +108,72 @@ example : (sendCommand (σ := Unit) (fun _ _ => ((), ofStr "Error: x")) [ofStr "
 example : (sendCommand (σ := Unit) (fun _ _ => ((), ofStr "Error: x")) [ofStr "Error"]
     ⟨[], false⟩ ⟨(), []⟩ (ofStr "cmd")).1.failed.isSome = true := by decide +kernel
 
+/-! ## operation options reach the generic driver wherever they stand in the call -/
+
+/-- Obligations on the regenerated loop shapes (`Generated/C13OptionLoops.lean`): in each of the four
+`NewOperation` constructors, which all receive the same option list of a call, the loop over the
+options goes on to the next option after one that applied and after one that answered
+`util.ErrIgnoredOption`, and its only other exit is `return nil, err` for a real error — no
+`break`, no other return. -/
+theorem generic_option_loop_shape : Gen.C13OptionLoops.generic = OptLoop.good := by decide
+theorem channel_option_loop_shape : Gen.C13OptionLoops.channel = OptLoop.good := by decide
+theorem network_option_loop_shape : Gen.C13OptionLoops.network = OptLoop.good := by decide
+theorem netconf_option_loop_shape : Gen.C13OptionLoops.netconf = OptLoop.good := by decide
+
+/-- For every option list of a call (any number of `WithFailedWhenContains`, `WithStopOnFailed` and
+options of other layers, in any order) without an erroring option, `generic.NewOperation` succeeds
+and yields exactly what the caller asked for: the failure strings of the *last*
+`WithFailedWhenContains` (none: the empty list, so the driver's apply) and stop-on-failed iff a
+`WithStopOnFailed` is present — the same as for the list with every foreign option removed, i.e.
+wherever the foreign options stand. It is the `newOperation` all other theorems are stated for. -/
+theorem op_options_position_independent (opts : List OpOpt) (h : OpOpt.bad ∉ opts) :
+    newOperationL opts = some { fwc := (lastFwc opts).getD [], stop := hasStop opts } ∧
+    newOperationL (opts.filter (· != .foreign)) = newOperationL opts ∧
+    lastFwc (opts.filter (· != .foreign)) = lastFwc opts ∧
+    hasStop (opts.filter (· != .foreign)) = hasStop opts ∧
+    newOperationL opts = some (newOperation (lastFwc opts) (hasStop opts)) := by
+  have closed : ∀ l : List OpOpt, OpOpt.bad ∉ l →
+      newOperationL l = some { fwc := (lastFwc l).getD [], stop := hasStop l } := by
+    intro l hl
+    unfold newOperationL
+    rw [generic_option_loop_shape, run_good_eq_foldl _ _ hl]
+    have := foldl_updOp l { fwc := [], stop := Gen.Generic.defaultStopOnFailed }
+    congr 1
+    cases hfold : l.foldl updOp { fwc := [], stop := Gen.Generic.defaultStopOnFailed } with
+    | mk f s =>
+      rw [hfold] at this
+      simp only [Gen.Generic.defaultStopOnFailed, Bool.false_or] at this
+      rw [this.1, this.2]
+  have hf : OpOpt.bad ∉ opts.filter (· != .foreign) := fun hm => h (List.mem_filter.mp hm).1
+  refine ⟨closed opts h, ?_, lastFwc_filter_foreign opts, hasStop_filter_foreign opts, ?_⟩
+  · rw [closed _ hf, closed opts h, lastFwc_filter_foreign, hasStop_filter_foreign]
+  · rw [closed opts h]
+    congr 1
+    cases hl : lastFwc opts <;> cases hs : hasStop opts <;>
+      simp [newOperation, Gen.Generic.defaultStopOnFailed]
+
+/-- foreign options before, between and after; two `WithFailedWhenContains` (the last wins) -/
+example : newOperationL [.foreign, .fwc [ofStr "x"], .foreign, .stop, .fwc [ofStr "E"], .foreign]
+    = some { fwc := [ofStr "E"], stop := true } := by decide +kernel
+example : OpOpt.bad ∉ [OpOpt.foreign, .fwc [ofStr "x"], .foreign, .stop] := by decide
+
+/-- an erroring option makes the constructor fail wherever it stands (nothing is sent then) -/
+theorem op_options_error_fails (pre post : List OpOpt) (h : OpOpt.bad ∉ pre) :
+    newOperationL (pre ++ .bad :: post) = none := by
+  unfold newOperationL
+  rw [generic_option_loop_shape]
+  generalize ({ fwc := [], stop := Gen.Generic.defaultStopOnFailed } : Op) = o
+  induction pre generalizing o with
+  | nil => simp [OptLoop.run, applyOpOpt, OptLoop.good]
+  | cons x xs ih =>
+    have hxs : OpOpt.bad ∉ xs := fun hm => h (List.mem_cons_of_mem _ hm)
+    have hx : x ≠ .bad := fun e => h (by simp [e])
+    cases x with
+    | fwc l => simpa [OptLoop.run, applyOpOpt, OptLoop.good] using ih hxs _
+    | stop => simpa [OptLoop.run, applyOpOpt, OptLoop.good] using ih hxs _
+    | foreign => simpa [OptLoop.run, applyOpOpt, OptLoop.good] using ih hxs _
+    | bad => exact absurd rfl hx
+
 /-! ## the aggregate -/
 
 /-! `Recorded r` (Lemmas): `r` is as `Record` produces it — not failed, or failed with an
